@@ -1975,15 +1975,18 @@ func main() {
 			termChecks = append(termChecks, 4+2*res.NTrials) // wf, pass, repeated pass, trace, per interruption point: restart state and outcome
 		}
 	}
-	// shard the case files
-	const perFile = 6
-	for i := 0; i < len(terms); i += perFile {
-		j := i + perFile
-		if j > len(terms) {
-			j = len(terms)
+	// shard the case files: at most 6 scenarios and ~60 KB per file (coqc's parser recurses on the term)
+	fileNo := 0
+	for i := 0; i < len(terms); {
+		j, size := i, 0
+		for j < len(terms) && j-i < 6 && (j == i || size+len(terms[j]) < 60000) {
+			size += len(terms[j])
+			j++
 		}
-		sum.WriteCaseFile(cfg.Out, fmt.Sprintf("c14_cases_%02d", i/perFile), "From SigM Require Import Base Retention RetentionCheck.", "",
+		sum.WriteCaseFile(cfg.Out, fmt.Sprintf("c14_cases_%03d", fileNo), "From SigM Require Import Base Retention RetentionCheck.", "",
 			strings.Join(terms[i:j], "\n ++ "), sumInts(termChecks[i:j]))
+		fileNo++
+		i = j
 	}
 	sum.Write(cfg.Out)
 }
